@@ -100,6 +100,11 @@ pub fn c16_build(raw: &Raw, _tier: Tier, _sched: bool) -> Scenario {
     let veto_mw = if knob(raw, 11) % 3 == 0 { Some(b.middleware(s)) } else { None };
     let sel = b.sub(SubKind::Selector { fresh: false });
     b.s.prelude.push(Op::Subscribe { store: s, sub: sel });
+    // a third of the cases: the caller does not keep the Subscription handle (the handle is only
+    // the means to end the subscription; dropping it ends nothing)
+    if knob(raw, 15) % 3 == 0 {
+        b.s.prelude.push(Op::ForgetSubscription { store: s, sub: sel });
+    }
     let mut sels = vec![sel];
     if knob(raw, 3) % 2 == 0 {
         let sel2 = b.sub(SubKind::Selector { fresh: false });
@@ -350,7 +355,7 @@ pub fn c16_extra(_tier: Tier) -> ExtraResult {
 
 pub static C16: Profile = Profile {
     id: "C16",
-    rule: "(1) enumeration: every sequence of selected values over {0,1,2} of length 0..=8 (9841 sequences) fed straight to SelectorSubscriber::on_notify; (2) proptest: sequences of up to 2x60 (quick) / 2x100 (thorough) actions over alphabets of 2-5 selected values through a running store with a plain witness subscriber, 1-2 selector subscriptions and 1-2 producers (Keep actions interspersed, in a third of the cases also actions vetoed in before_reduce, which are still notified, in a third one more selector subscription made by a client thread mid-run; in a third of these a subscription is ended mid-run by a client thread or from inside the first subscription's own callback, so that a notification already in flight still reaches it); in a third of the cases one SelectorSubscriber object is registered on two stores fed concurrently (it must never deliver the value it delivered last). Oracle O-SELECT: delivered (value, action) list = consecutive-duplicate removal of the notification stream. Non-trivial = the stream contains an adjacent repeat AND a later return to an earlier value; distinct by scenario hash (random part) / by sequence (enumeration).",
+    rule: "(1) enumeration: every sequence of selected values over {0,1,2} of length 0..=8 (9841 sequences) fed straight to SelectorSubscriber::on_notify; (2) proptest: sequences of up to 2x60 (quick) / 2x100 (thorough) actions over alphabets of 2-5 selected values through a running store with a plain witness subscriber, 1-2 selector subscriptions and 1-2 producers (Keep actions interspersed, in a third of the cases also actions vetoed in before_reduce, which are still notified, in a third one more selector subscription made by a client thread mid-run, in a third the Subscription handle of the first subscription is dropped at once; in a third of these a subscription is ended mid-run by a client thread or from inside the first subscription's own callback, so that a notification already in flight still reaches it); in a third of the cases one SelectorSubscriber object is registered on two stores fed concurrently (it must never deliver the value it delivered last). Oracle O-SELECT: delivered (value, action) list = consecutive-duplicate removal of the notification stream. Non-trivial = the stream contains an adjacent repeat AND a later return to an earlier value; distinct by scenario hash (random part) / by sequence (enumeration).",
     raw: c16_raw,
     build: c16_build,
     check: c16_check,
